@@ -311,7 +311,7 @@ def _excursion_record(rng, n, zero_touch=True):
     return np.array(v[:n], dtype=float)
 
 
-def extras2(ctx):
+def _x2_wrappers(ctx, cur):
     import eqsig
     from eqsig.fns import peaks_and_crossings as pc
     rng = ctx.rng
@@ -327,6 +327,8 @@ def extras2(ctx):
         ctx.count_case(('x2w', v.tobytes()), gen.nontrivial_record(v))
         dt = gen.any_dt(rng)
         inputs = {'values': v.tolist(), 'dt': dt}
+        cur.clear()
+        cur.update(inputs)
         cls = eqsig.AccSignal if it % 2 else eqsig.Signal
         asig = ctx.aged(cls, v, dt) if it % 5 == 0 else _light_history(ctx, cls, v, dt)
         z_ref = pc.get_zero_crossings_array_indices(v)
@@ -363,6 +365,13 @@ def extras2(ctx):
                     ctx.oracle('C12 the indices do not depend on the container or dtype holding the series (%s)' % nm, g[0] == 'ok' and _same_idx(g[1], ref),
                                {'values': v.tolist(), 'container': lab, 'tol': tol}, detail={'got': g[1], 'float64 ndarray': ref})
 
+
+def _x2_scale(ctx, cur):
+    import eqsig
+    from eqsig.fns import peaks_and_crossings as pc
+    rng = ctx.rng
+    quick = ctx.tier == 'quick'
+
     # ---- (2) exact scale invariance (degree 0; the tolerance scales with the series). 2^-400 keeps the products of neighbouring multiples of
     # 1/8 inside the normal range, 2^+500 / 2^+900 overflow them to +-inf with the right sign; 2^-600 is the documented underflow limitation
     for it in range(20 if quick else 200):
@@ -370,6 +379,8 @@ def extras2(ctx):
         v = gen.dyadic_record(rng, n) if it % 3 == 0 else _excursion_record(rng, n) if it % 3 == 1 else gen.int_record(rng, n)
         if len(set(v.tolist())) < 2:
             continue
+        cur.clear()
+        cur.update({'values': v.tolist()})
         tol = rng.choice([0.5, 1.0, 1.5])
         fns = [('zero crossings', lambda x, t: pc.get_zero_crossings_array_indices(x)),
                ('zero crossings/keep', lambda x, t: pc.get_zero_crossings_array_indices(x, keep_adj_zeros=True)),
@@ -387,6 +398,13 @@ def extras2(ctx):
                 ctx.oracle('C12 indices are unchanged when series (and tolerance) are scaled by a power of two (%s)' % nm, g[0] == 'ok' and _same_idx(g[1], b),
                            {'values': v.tolist(), 'tol': tol, 'scale': '2**%d' % k}, detail={'scaled': g[1], 'base': b})
 
+
+def _x2_large(ctx, cur):
+    import eqsig
+    from eqsig.fns import peaks_and_crossings as pc
+    rng = ctx.rng
+    quick = ctx.tier == 'quick'
+
     # ---- (1) large instances (tens of thousands of samples, thousands of excursions and zero touches): the clauses in O(n) with NumPy
     sizes = [('zero-touches', rng.choice([20000, 32768, 60000])), ('int-walk', rng.choice([10000, 16384, 50000])), ('noise', rng.choice([8192, 30000]))]
     if not quick:
@@ -402,6 +420,8 @@ def extras2(ctx):
         else:
             v = g.standard_normal(n)
         desc = {'generator': 'c12.extras2 large', 'kind': kind, 'n': n, 'seed': seed}
+        cur.clear()
+        cur.update(desc)
         ctx.hist('extras2/large/' + kind)
         ctx.count_case(('x2l', kind, n, seed), True, sample=desc)
         z0 = {}
@@ -431,6 +451,11 @@ def extras2(ctx):
                     w = v * 2.0 ** k
                     ctx.oracle('C12 (large) indices unchanged when the series is scaled by a power of two', _same_idx(pc.get_switched_peak_array_indices(w), S)
                                and _same_idx(pc.get_zero_crossings_array_indices(w), z0[False]), {**desc, 'scale': '2**%d' % k})
+
+
+def extras2(ctx):
+    from _hxb_common import guarded_sections
+    guarded_sections(ctx, 'C12', [('wrappers', _x2_wrappers), ('scale', _x2_scale), ('large', _x2_large)])
 
 
 _run_main2 = run
